@@ -69,6 +69,8 @@ def replay(lentil, rec, fields, ctx):
         hist.append(f"{a}:{s}:{st['arg']}")
         if a == 'AddRamp':
             pool[s].opd = pool[s].opd + ramp(st['arg']) * unit
+        elif a == 'AddRampInplace':
+            pool[s].opd[...] = pool[s].opd + ramp(st['arg']) * unit       # writes into the array, no setter involved
         elif a == 'SetBase':
             pool[s].opd = BASES[st['arg']] * unit
         elif a == 'FitInplace':
@@ -93,7 +95,7 @@ def run(ctx, lentil):
     recs = []
     r = run_tlc('MC_PlaneHist', env={'PH_LEN': 3 if q else 4}, workers=4, timeout=900, coverage=True)
     ctx.add_tlc(r, f"MC_PlaneHist exhaustive length {3 if q else 4}")
-    ctx.require_coverage(r, ['AddRamp', 'SetBase', 'FitIn', 'FitCopy', 'Copy', 'Observe'])
+    ctx.require_coverage(r, ['AddRamp', 'AddRampIn', 'SetBase', 'FitIn', 'FitCopy', 'Copy', 'Observe'])
     recs += r.emits
     r2 = run_tlc('MC_PlaneHist', env={'PH_LEN': 8}, workers=1, timeout=900, simulate=f"num={1500 if q else 12000}", depth=9, seed=ctx.seed + 11)
     ctx.add_tlc(r2, 'MC_PlaneHist simulate length 8')
